@@ -194,4 +194,25 @@ example : ((({} : DirRepo).init).repoDir = true ∧ (({} : DirRepo).init).indexF
 example : SubjUnique ([] : List Desc) ∧ (keysOf ([] : List Blob)).Nodup := by
   refine ⟨?_, by simp [keysOf]⟩
   intro e1 h; simp at h
+/-! ## the window of the store-wide pass ("is not starved")
+
+`dueOf slack grace gap age` is the transcription of the test `timeMod.Before(prev − slack − grace)` of `dir.gc` / `mem.gc`
+(milliseconds; `age` = tick − last modification, `gap` = tick − previous tick). -/
+
+/-- a repository modified since the previous tick is visited by this pass, whatever the grace period -/
+theorem due_if_modified_since_tick (slack grace gap age : Nat) (h : age ≤ gap) : dueOf slack grace gap age = true := by
+  unfold dueOf; simp; omega
+
+/-- not starved: at the first tick at which content last touched `age` ago has left the grace period
+    (`grace ≤ age`, and at the previous tick it had not: `age < grace + gap`) the repository is still visited;
+    so garbage is collected by the first pass after its grace period has elapsed -/
+theorem due_when_grace_elapses (slack grace gap age : Nat) (_hel : grace ≤ age) (hfirst : age < grace + gap) :
+    dueOf slack grace gap age = true := by
+  unfold dueOf; simp; omega
+
+/-- the window is exactly `gap + slack + grace`: nothing older is visited (the pass does not rescan idle repositories) -/
+theorem not_due_iff (slack grace gap age : Nat) : dueOf slack grace gap age = false ↔ gap + slack + grace < age := by
+  unfold dueOf; simp
+
+example : dueOf 250 3600000 1000 3600850 = true ∧ dueOf 250 3600000 1000 3601400 = false ∧ dueOf 0 0 1000 1100 = false := by decide
 end C06
